@@ -1635,6 +1635,7 @@ func (kmc *KeystoreManagerForPoC) ChangeRemark(accountID, newRemark string) erro
 		if err != nil {
 			return err
 		}
+		addrManager.setRemark(newRemark)
 		return nil
 	} else {
 		logging.CPrint(logging.ERROR, "account not exists",
